@@ -388,6 +388,8 @@ type H struct {
 	preCall        func(h *H, c call)             // runs before the reference comparison
 	allowDeviation func(h *H, exp, got call) bool // a callback that differs from the reference but is permitted: stop comparing
 	nodes          map[*spec]flyt.Node
+	cbGen          [3]int   // generation of the prep / exec / post callback currently installed on the replaced-kind node
+	reinstall      func()   // re-sets the callbacks of the (single) replaced-kind node between runs
 	cancelFail     error    // the error of the callback that cancelled the context and failed (errCancelThenFail)
 	topDown        bool     // wiring order of nested flows (see build)
 	buildDepth     int      // nesting of flow builds in progress
@@ -921,6 +923,82 @@ func (h *H) buildFunc(s *spec) flyt.Node {
 		}
 		if s.fb {
 			b = b.WithExecFallbackFunc(fb)
+		}
+		if s.replaced {
+			// between two runs of the same node: every phase is set again, several times, and ends
+			// up in the OTHER style than before, with NEW function values: the ones that served the
+			// previous run have been replaced and must not be called any more
+			kind := s.kind
+			phaseIdx := map[string]int{"prep": 0, "exec": 1, "post": 2}
+			stale := func(gen int, what string) {
+				if gen != h.cbGen[phaseIdx[what]] {
+					core.Problem("%s: the %s callback that was replaced after an earlier run was invoked again", s.id, what)
+				}
+			}
+			anyStyle := [3]bool{kind == kFuncAB, kind != kFuncRB, kind == kFuncAB} // current style of prep, exec, post (Mix: R, A, R)
+			set := func(ph int, toAny bool) {
+				h.cbGen[ph]++
+				g := h.cbGen[ph]
+				anyStyle[ph] = toAny
+				switch {
+				case ph == 0 && toAny:
+					b.WithPrepFuncAny(func(ctx context.Context, st *flyt.SharedStore) (any, error) { stale(g, "prep"); return prepA(ctx, st) })
+				case ph == 0:
+					b.WithPrepFunc(func(ctx context.Context, st *flyt.SharedStore) (flyt.Result, error) {
+						stale(g, "prep")
+						return prepR(ctx, st)
+					})
+				case ph == 1 && toAny:
+					b.WithExecFuncAny(func(ctx context.Context, p any) (any, error) { stale(g, "exec"); return execA(ctx, p) })
+				case ph == 1:
+					b.WithExecFunc(func(ctx context.Context, p flyt.Result) (flyt.Result, error) { stale(g, "exec"); return execR(ctx, p) })
+				case toAny:
+					b.WithPostFuncAny(func(ctx context.Context, st *flyt.SharedStore, p, e any) (flyt.Action, error) {
+						stale(g, "post")
+						return postA(ctx, st, p, e)
+					})
+				default:
+					b.WithPostFunc(func(ctx context.Context, st *flyt.SharedStore, p, e flyt.Result) (flyt.Action, error) {
+						stale(g, "post")
+						return postR(ctx, st, p, e)
+					})
+				}
+			}
+			h.reinstall = func() {
+				if core.Choose(2) == 0 {
+					// every phase again, in the other style than it has now
+					for ph := 0; ph < 3; ph++ {
+						set(ph, !anyStyle[ph])
+					}
+					return
+				}
+				// ONE phase set again 1 … 4 times in its own style; the others stay as they are
+				ph, k := core.Choose(3), core.Choose(4)+1
+				for i := 0; i < k; i++ {
+					set(ph, anyStyle[ph])
+				}
+			}
+			// the first run's callbacks are generation 0
+			g0 := func(what string) { stale(0, what) }
+			switch kind {
+			case kFuncRB:
+				b.WithPrepFunc(func(ctx context.Context, st *flyt.SharedStore) (flyt.Result, error) {
+					g0("prep")
+					return prepR(ctx, st)
+				}).
+					WithExecFunc(func(ctx context.Context, p flyt.Result) (flyt.Result, error) { g0("exec"); return execR(ctx, p) }).
+					WithPostFunc(func(ctx context.Context, st *flyt.SharedStore, p, e flyt.Result) (flyt.Action, error) {
+						g0("post")
+						return postR(ctx, st, p, e)
+					})
+			case kFuncAB:
+				b.WithPrepFuncAny(func(ctx context.Context, st *flyt.SharedStore) (any, error) { g0("prep"); return prepA(ctx, st) }).
+					WithExecFuncAny(func(ctx context.Context, p any) (any, error) { g0("exec"); return execA(ctx, p) }).
+					WithPostFuncAny(func(ctx context.Context, st *flyt.SharedStore, p, e any) (flyt.Action, error) {
+						g0("post")
+						return postA(ctx, st, p, e)
+					})
+			}
 		}
 		return b
 	}
